@@ -71,12 +71,16 @@ PairScenarios == {
   S("badseq-new",    L_two,  P2(SeqC(<<"i1", "i2", "zz">>), NewTask), {}),
   S("prune-setdone", L_done, P2(Prune, SetState("i2", "done", "")), {}),
   S("prune-newchild", L_emptyepic, P2(Prune, NewTaskIn("i1")), {}),
-  S("compact-new",   L_done, P2(Compact, NewTask), {})
+  S("compact-new",   L_done, P2(Compact, NewTask), {}),
+  S("claimid-setdone", L_two, P2(ClaimId("i1", "a1"), SetState("i1", "done", "")), {}),
+  S("claimid-claimid", L_two, P2(ClaimId("i1", "a1"), ClaimId("i1", "a2")), {}),
+  S("setdoing-setdone", L_two, P2(SetState("i1", "doing", "a1"), SetState("i1", "canceled", "")), {})
 }
 
 \* subsets of the menu, for the properties whose concurrent half they exercise
 SeqScenarios   == {x \in PairScenarios : x.name \in {"seq-seqrev", "chain-seq", "seq-rm"}}
 PruneScenarios == {x \in PairScenarios : x.name \in {"prune-reopen", "prune-prune", "prune-setdone", "prune-newchild"}}
+StateScenarios == {x \in PairScenarios : x.name \in {"claimid-setdone", "claimid-claimid", "setdoing-setdone", "set-set", "claimid-claim", "set-claim"}}
 FailScenarios  == {x \in PairScenarios : x.name \in {"badset-new", "badseq-new", "claimid-claim", "set-set"}}
 
 ReaderScenarios == {
